@@ -1,6 +1,6 @@
 SPECIFICATION Spec
 CONSTANTS
-  OrdKinds = {"A", "B", "R", "U"}
+  OrdKinds = {"A", "B", "R", "U", "Z"}
   MaxOps = 7
 INVARIANTS Ordered Composition
 PROPERTIES RefusalRule
